@@ -62,6 +62,10 @@ CLAIMED = {
    "Structural conditions decided on every run: Clone gives every reference-typed component of Result and of Config elements (enumerated from the struct types) a fresh allocation or nil, with pointer provenance followed through copied structs; scanner bytes and their sub-slices (taint propagated through the package's helpers to a fixpoint) reach persistent state only via element copies or string conversions, Result.Name being the one documented view; every change of Config's length on an existing Result maintains the key index and only the reviewed functions write it; Reset re-initialises every field of the reader (enumerated) except the two persistent tables, which are created only when absent; Files resets before scanning each file with the .file label and never replaces its reader; call-free scanning loops advance on every back edge; the key/value recogniser uses exactly the documented predicates and agrees with its legacy sibling.",
    "Does not decide the line classifier's exact language, numeric fields (C03), label disambiguation arithmetic, or absence of index panics. Trusted: go/types, go/ssa.",
    "type-driven exhaustiveness + forward taint over SSA + pairing/dominance rules"),
+ "C03": ("DESIGN.md §4 C03 (thin)",
+   "Thin structural part, decided on every run: parse errors of the iteration count and of each measurement end the line with a syntax error on every path before any value is recorded; the measurement fast path is exact by an interval argument (digits only, int64 accumulator, guard G with 10G+9 <= MaxInt64 evaluated in the checker, returns float64(accumulator), full parser on the whole input with bit size 64 otherwise); the iteration-count fast path's digit bound fits the word size (per build configuration, incl. GOARCH=386 in thorough); in the decimal-to-bits conversions every increase of the binary exponent is range-checked before the bits are assembled.",
+   "Does NOT decide the property's core: that the 1400-line byte-slice port of strconv rounds correctly on every numeric text. The thorough tier attaches an informational per-function drift report against $GOROOT/src/strconv; it is not a verdict. Trusted: the language's correctly rounded int64->float64 conversion, go/types, go/ssa.",
+   "guard/interval rules over SSA with constants evaluated in big-integer arithmetic + error-path rules"),
 }
 
 NOT_YET = "check not built yet in this round (planned in DESIGN.md); not claimed until its rules run clean on the unchanged tree"
